@@ -222,7 +222,7 @@ _reg(
     lambda a, p: ref_gru(*a[:10], s0=(a[10] if len(a) > 10 else None)),
     nary=True,
 )
-_reg("softmax_crossentropy", 1, lambda mg, a, p, kw: mg.nnet.softmax_crossentropy(a[0], _lab(p), **kw),
+_reg("softmax_crossentropy", 1, lambda mg, a, p, kw: mg.nnet.softmax_crossentropy(a[0], _lab_mg(mg, p), **kw),
      lambda a, p: ref_softmax_crossentropy(a[0], _lab(p)))
 _reg(
     "negative_log_likelihood", None,
@@ -230,7 +230,13 @@ _reg(
     lambda a, p: ref_nll(a[0], _lab(p), a[1] if len(a) > 1 else None),
     nary=True,
 )
-_reg("multiclass_hinge", 1, lambda mg, a, p, kw: mg.nnet.multiclass_hinge(a[0], _lab(p), p["hinge"], **kw),
+def _lab_mg(mg, p):
+    """labels as handed to MyGrad: an integer ndarray, or (p["ytensor"]) an integer tensor"""
+    y = _lab(p)
+    return mg.tensor(y) if p.get("ytensor") else y
+
+
+_reg("multiclass_hinge", 1, lambda mg, a, p, kw: mg.nnet.multiclass_hinge(a[0], _lab_mg(mg, p), p["hinge"], **kw),
      lambda a, p: ref_multiclass_hinge(a[0], _lab(p), p["hinge"]))
 _reg("margin_ranking_loss", 2,
      lambda mg, a, p, kw: mg.nnet.margin_ranking_loss(a[0], a[1], (np.array(p["y"]) if isinstance(p["y"], list) else p["y"]), p["margin"], **kw),
